@@ -82,7 +82,8 @@ def observe (kind mode : String) (lines : List (List Chunk)) : String :=
   else if kind = "hcmd" then "ok " ++ showCps (joinStr '\n' lines)
   else
     let whole := wholeOf '\n' lines
-    if mode = "c" then "ok " ++ showCps (strOf whole)
+    if mode = "c" then "ok " ++ showCps (strOf whole) ++ " " ++
+      showCps (Sgr.strip Gen.C10.stripClass Gen.C10.stripFinal (strOf whole))
     else if mode = "n" then "ok " ++ showCps (strOf whole) ++ " " ++ showCps (plainOf whole)
     else "ok " ++ showCps (strOf whole) ++ " " ++ toString lines.length ++
       (if lines.isEmpty then "" else " " ++ showStrs (lines.map strOf))
